@@ -500,6 +500,7 @@ Proof.
   intros x H. unfold handleUnknownScode.
   pose proof (stopParsing_InvW false x H) as Hs.
   destruct (stopParsing false x) as [y|y]; cbn [bind st_of] in *; [|exact Hs].
+  destruct (can_bypass (fl y)); cbn [bind]; [exact Hs|].
   pose proof (stopBackup_fr y) as F. destruct (stopBackup y) as [z|z]; cbn [bind st_of] in *; eapply fr_InvW; eauto.
 Qed.
 
@@ -911,16 +912,26 @@ Definition vbody_demo : bytes := [1;2;3;4;5;6;7;8;9;10].
 Definition evs_demo (reply : list event) : list event :=
   [EvStart; EvVData vbody_demo; EvVEnd; EvConnected; EvWrote; EvWrote] ++ reply.
 
-(* refuted: bypass=1, the ICAP server answers 500 inside the preview, no adapted content exists, and the client gets an error *)
+(* refuted: bypass=1, the ICAP server answers 200 and closes inside the encapsulated HTTP head: no adapted head was
+   ever completed or forwarded, no adapted byte accepted, and the client gets an error *)
 Lemma bypass_refuted :
   exists c evs, c_bypass c = true /\
     let x := run (init c) evs in
-    ad_header (ad x) <> Some SrcAdapted /\ ad_in (ad x) = [] /\ stopped (job x) = true /\
+    o_body (out x) = [] /\ ad_in (ad x) = [] /\ stopped (job x) = true /\
     o_answer (out x) = Some AnsError /\ deliver x = DError.
 Proof.
-  exists (cfg_demo true), (evs_demo [EvRead [TIcapHead 500 HNone false false]]).
-  split; [reflexivity|]. vm_compute. repeat split. discriminate.
+  exists (cfg_demo true), (evs_demo [EvRead [TIcapHead 200 HRes true false; TPartial]; EvEof]).
+  split; [reflexivity|]. vm_compute. repeat split.
 Qed.
+
+(* an ICAP error status inside the preview is bypassed (as repaired by /repo 0ccad7c; former finding) *)
+Lemma bypass_status_example :
+  let x := run (init (cfg_demo true)) (evs_demo [EvRead [TIcapHead 500 HNone false false]]) in
+  deliver x = DMessage SrcVirgin true vbody_demo true.
+Proof. vm_compute. reflexivity. Qed.
+Lemma nobypass_status_example :
+  let x := run (init (cfg_demo false)) (evs_demo [EvRead [TIcapHead 500 HNone false false]]) in deliver x = DError.
+Proof. vm_compute. reflexivity. Qed.
 
 (* the same failure as a closed connection IS bypassed, and without bypass it is an error *)
 Lemma bypass_close_example :
